@@ -10,6 +10,7 @@
   judged by the proved oracle (C01) and by the stability relations of `Driver.History`.
 -/
 import Hw.Topo.HistoryLemmas
+import Hw.Topo.InsertLemmas
 namespace Hw.Props.C02
 open Hw.Topo Hw.Topo.Hist
 
@@ -100,5 +101,59 @@ theorem C02_infos_einval (l : List Hw.Infos.Info) (op : Hw.Infos.Op) (n v : Opti
 example : Hw.Infos.replaceArr [("X", "a"), ("Y", "b"), ("X", "c"), ("Z", "d"), ("X", "e")] "X" "new"
     = ([("X", "new"), ("Y", "b"), ("Z", "d")], 4) := by decide
 example : Hw.Infos.removeArr [("X", "a"), ("Y", "b"), ("X", "c")] (some "X") none = ([("Y", "b")], 2) := by decide
+
+
+/-! ### Group insertion: `hwloc___insert_object_by_cpuset` on laminar trees (model `Hw.Topo.Ins`, predicted exactly by the driver) -/
+
+open Hw.Topo.Ins in
+/-- the core insertion routine, run on ANY laminar tree (children pairwise disjoint and included in their parent, at every level)
+with ANY object whose set is included in the root's, never reaches the situation in which the C code returns while children
+hang below the unlinked new object (objects would be lost), and conserves the objects: an insertion adds exactly the new object,
+a merge or a refused insertion (intersection without inclusion) keeps exactly the same objects -/
+theorem C02_insert_conserves_objects (t : T) (obj : IObj) (hL : Lam t) (hs : sub obj.key t.o.key) :
+    ins obj t ≠ .stuck ∧
+    (∀ t', ins obj t = .inserted t' → ∀ g, cntT g t' = cntT g t + (if obj.gp = g then 1 else 0)) ∧
+    (∀ t' m, ins obj t = .merged t' m → ∀ g, cntT g t' = cntT g t) ∧
+    (∀ t', ins obj t = .failed t' → ∀ g, cntT g t' = cntT g t) := by
+  have h := ins_good t obj hL hs
+  refine ⟨fun e => by rw [e] at h; exact h, fun t' e => ?_, fun t' m e => ?_, fun t' e => ?_⟩ <;> rw [e] at h
+  · exact h.2.2
+  · exact h.2.2
+  · exact h.2
+
+open Hw.Topo.Ins in
+/-- after an insertion or a merge the tree is laminar again (the cpuset clauses of C01 that concern inclusion and disjointness
+are preserved by the routine), and the root keeps its set -/
+theorem C02_insert_preserves_laminar (t : T) (obj : IObj) (hL : Lam t) (hs : sub obj.key t.o.key) :
+    (∀ t', ins obj t = .inserted t' → Lam t' ∧ t'.o.key = t.o.key) ∧
+    (∀ t' m, ins obj t = .merged t' m → Lam t' ∧ t'.o.key = t.o.key) := by
+  have h := ins_good t obj hL hs
+  refine ⟨fun t' e => ?_, fun t' m e => ?_⟩ <;> rw [e] at h <;> exact ⟨h.1, h.2.1⟩
+
+open Hw.Topo.Ins in
+/-- the same through the public entry point `hwloc_topology_insert_group_object` (set clipping, cpuset from the nodeset,
+comparison with the root), for every argument combination -/
+theorem C02_group_insert (filterGroup rootCpuset rootNodeset : Nat) (numas : List (Nat × Nat)) (root : T) (newGp : Nat)
+    (a : GArgs) (hL : Lam root) (key : Nat) (r : Res)
+    (h : insertGroup filterGroup rootCpuset rootNodeset numas root newGp a = .core key r) : Good newGp root r :=
+  insertGroup_good filterGroup rootCpuset rootNodeset numas root newGp a hL key r h
+
+open Hw.Topo.Ins in
+/-- the executable laminarity check the driver evaluates on the tree of every real topology before a Group insertion is sound -/
+theorem C02_laminar_check_sound (t : T) (h : lamB t = true) : Lam t := lamB_sound t h
+
+/-! non-vacuity: a laminar tree, an insertion that adopts two children, a refused one -/
+section
+open Hw.Topo.Ins
+private def leaf (gp key : Nat) : T := .node { gp := gp, type := tPU, key := key, ckey := key } []
+private def demo : T := .node { gp := 0, type := tMACHINE, key := 0xf, ckey := 0xf } [leaf 1 1, leaf 2 2, leaf 3 4, leaf 4 8]
+example : lamB demo = true := by decide
+example : (match ins { gp := 9, type := tGROUP, key := 0x3 } demo with | .inserted t' => rows 0 t' | _ => [])
+    = [(0, 0, [], []), (9, 0, [0, 0, 0], []), (1, 9, [], []), (2, 9, [], []), (3, 0, [], []), (4, 0, [], [])] := by decide +kernel
+example : (match ins { gp := 9, type := tGROUP, key := 0x3 }
+      (.node { gp := 0, type := tMACHINE, key := 0xf, ckey := 0xf } [leaf 1 1, leaf 2 6, leaf 4 8]) with
+    | .failed t' => rows 0 t' | _ => [])
+    = [(0, 0, [], []), (1, 0, [], []), (2, 0, [], []), (4, 0, [], [])] := by decide +kernel
+end
 
 end Hw.Props.C02
